@@ -223,6 +223,10 @@ impl<'repo> Stack<'repo> {
         };
 
         ensure_patch_refs(repo, &branch_name, &state)?;
+
+        #[cfg(stgit_verif)]
+        crate::verif_point::point("stack.loaded")?;
+
         Ok(Self {
             repo,
             branch_name,
